@@ -176,15 +176,25 @@ func expect(m *am, rc *reqCtx, f format) (*canon, string) {
 		return nil, "no-field"
 	}
 	all := append(append([]kv{}, m.Tags...), rc.Enriched...)
-	if lim(l.MaxTagsPerMetric, len(all)) {
-		// the influx path has no such check at the broker (the index enforces the limit later);
-		// renderers never emit influx for this shape, see expressible().
-		return nil, "too-many-tags"
-	}
 	for _, t := range all {
 		if t.K == "" || t.V == "" {
 			return nil, "empty-tag"
 		}
+	}
+	// The limits are applied to what is on the wire. The official flat client sorts and
+	// de-duplicates before it sends, and a line's tag set is read into a map, so for these two
+	// formats only the surviving value of a repeated key is counted / measured.
+	wire := m.Tags
+	if f == fFlatClient || f == fInflux {
+		wire = canonTags(m.Tags)
+	}
+	checked := append(append([]kv{}, wire...), rc.Enriched...)
+	if lim(l.MaxTagsPerMetric, len(checked)) {
+		// (the influx path has no such check at the broker - the index enforces the limit
+		// later; renderers never emit influx for this shape, see expressible())
+		return nil, "too-many-tags"
+	}
+	for _, t := range checked {
 		if lim(l.MaxTagNameLength, len(t.K)) {
 			return nil, "tag-key-too-long"
 		}
@@ -199,7 +209,11 @@ func expect(m *am, rc *reqCtx, f format) (*canon, string) {
 		if fd.Name == "" {
 			return nil, "empty-field-name"
 		}
-		if lim(l.MaxFieldNameLength, len(fd.Name)) {
+		wname := fd.Name
+		if f == fFlatClient {
+			wname = sanitizeFieldName(wname) // the official client renames reserved names before sending
+		}
+		if lim(l.MaxFieldNameLength, len(wname)) {
 			return nil, "field-name-too-long"
 		}
 		if fd.Type == tUnspecified {
@@ -319,7 +333,7 @@ func expressible(m *am, rc *reqCtx, f format) bool {
 		if m.Comp != nil || m.NS != "" {
 			return false
 		}
-		if lim(rc.Limits.MaxTagsPerMetric, len(m.Tags)+len(rc.Enriched)) {
+		if lim(rc.Limits.MaxTagsPerMetric, len(canonTags(m.Tags))+len(rc.Enriched)) {
 			return false // no tag-count check on this path (noted in the report)
 		}
 		if m.Name != "" && (m.Name[0] == '#' || !influxSafe(m.Name)) {
